@@ -96,3 +96,21 @@ package api
 //@ guard HTTP.getMessagesRequests by HTTP.getMessagesRequestsMu
 //@ guard HTTP.lastWrongPassword by HTTP.throttleMu
 //@ guard HTTP.throttlingExponent by HTTP.throttleMu
+
+// ---------------------------------------------------------------------------
+// C04 (the part one connection's sender decides): what getMessages puts on the channel is strictly
+// newer, in (id, reply) order, than what the client already has - the position it resumed from and
+// everything sent before on this connection - whatever the output stream lookups return. A batch
+// holds the replies to one input, numbered from 1 (that is how ircserver.send builds them; assumed
+// of what the stream hands back).
+//@ pred batchShape(ms []outputstream.Message) = forall k int :: 0 <= k && k < len(ms) ==> ms[k].Id.Id == ms[0].Id.Id && ms[k].Id.Reply == k + 1
+//@ func outputToRobustMessages
+//@   ensures same: len(result) == len(msgs) && (forall k int :: 0 <= k && k < len(msgs) ==> result[k] != nil && result[k].Id == msgs[k].Id)
+//@   loop range msgs
+//@     invariant len(result) == len(msgs) && allocated(result) && !samearray(result, msgs) && (forall k int :: 0 <= k && k <= rangeindex ==> result[k] != nil && allocated(result[k]) && result[k].Id == msgs[k].Id)
+//@ func HTTP.getMessages
+//@   assume@after OutputStream.Get#0 : stored-batch: callres1 ==> batchShape(callres0) && len(callres0) >= 1 && callres0[0].Id.Id == lastSeen.Id
+//@   assume@after OutputStream.GetNext#0 : stored-batch: batchShape(callres)
+//@   assert@send msgschan#0 : remainder: forall k int :: 0 <= k && k < len(callarg0) ==> callarg0[k].Id.Id == lastSeen.Id && callarg0[k].Id.Reply > lastSeen.Reply
+//@   assert@send msgschan#1 : newer: forall k int :: 0 <= k && k < len(callarg0) ==> callarg0[k].Id.Id > athead(lastSeen).Id || (callarg0[k].Id.Id == athead(lastSeen).Id && callarg0[k].Id.Reply > athead(lastSeen).Reply)
+//@   assert@send msgschan#1 : advanced: len(callarg0) >= 1 && lastSeen == callarg0[0].Id
